@@ -96,6 +96,8 @@ Variable f : nat -> R + Z.         (* the worker's unit function: result or erro
 
 Inductive msg := MRes (s : nat) (r : R) | MWake.
 
+(* result of a public call: reader: Some(chunk) | None (clean end) | Err; writer: write/flush Ok = ROk,
+   finish Ok(inner) = RNone (the stream is complete), Err *)
 Inductive cres := RSome (r : R) | RNone | RErr (e : Z) | ROk.
 
 Inductive wpc :=
@@ -234,87 +236,113 @@ Definition lock_free (s : state) : bool := match q_lock s with None => true | So
 
 Definition qlen (s : state) : nat := length (q_items s).
 
-(* ---- coordinator: returning from calls ---- *)
+(* ---- coordinator: returning from calls ----
+   The local code that follows a visible operation is described by an effect record (where control
+   goes, what is handed to the caller, phase / last_sequence_id updates) applied by ONE function in
+   setter normal form, so that every untouched field of the result is syntactically the old one. *)
+Record ceff := mkEff {
+  e_pc : cpc;                     (* next program point *)
+  e_out : list R;                 (* payloads handed to the caller / written to the sink *)
+  e_res : list cres;              (* [v]: a public call returns v *)
+  e_fin : bool;                   (* finish(self) returned: nothing more can be called *)
+  e_ph : option phase;            (* state := .. *)
+  e_last : option (option nat)    (* last_sequence_id := .. *)
+}.
 
+Definition apply_eff (s : state) (e : ceff) : state :=
+  mkSt (q_items s) (q_closed s) (q_lock s) (ch s) (rx_alive s) (err s) (shut s) (act s) (ws s)
+       (e_pc e)
+       (match e_ph e with Some p => p | None => ph s end)
+       (nd s) (nr s)
+       (match e_last e with Some l => l | None => last s end)
+       (reo s) (rwake s) (script s)
+       (if e_fin e then [] else prog s)
+       (pend s) (out s ++ e_out e) (results s ++ e_res e) (popped s).
+
+Definition goto (p : cpc) : ceff := mkEff p [] [] false None None.
 (* a public call returns [v] to the caller *)
-Definition call_return (s : state) (v : cres) : state :=
-  set_pc (set_out s (out s) (results s ++ [v])) CIdle.
+Definition creturn (v : cres) : ceff := mkEff CIdle [] [v] false None None.
 (* finish(self) returns: the object is dropped right after (Drop::drop runs) *)
-Definition finish_return (s : state) (v : cres) : state :=
-  set_pc (set_prog (set_out s (out s) (results s ++ [v])) [] (pend s)) (CShut false).
+Definition freturn (v : cres) : ceff := mkEff (CShut false) [] [v] true None None.
+Definition with_out (r : R) (e : ceff) : ceff :=
+  mkEff (e_pc e) (r :: e_out e) (e_res e) (e_fin e) (e_ph e) (e_last e).
 
-Definition emit (s : state) (r : R) : state := set_out s (out s ++ [r]) (results s).
+Definition call_return (s : state) (v : cres) : state := apply_eff s (creturn v).
+Definition finish_return (s : state) (v : cres) : state := apply_eff s (freturn v).
 
 Definition dk_is_finish (d : dk) : bool := match d with DFinish => true | _ => false end.
 
-(* get_next_*_chunk returns [v] to its caller [g] *)
-Definition ret (s : state) (g : gk) (v : cres) : state :=
+(* get_next_*_chunk returns [v] to its caller [g]; a chunk (RSome r) is handed out / written *)
+Definition ret_eff (s : state) (g : gk) (v : cres) : ceff :=
   match g with
   | KRead =>
       match v with
-      | RSome r => call_return (emit s r) (RSome r)
-      | _ => call_return s v
+      | RSome r => with_out r (creturn (RSome r))
+      | _ => creturn v
       end
   | KBack d =>
       match v with
-      | RSome r => set_pc (emit s r) (CLenB d)
-      | RErr e => if dk_is_finish d then finish_return s (RErr e) else call_return s (RErr e)
+      | RSome r => with_out r (goto (CLenB d))
+      | RErr e => if dk_is_finish d then freturn (RErr e) else creturn (RErr e)
       | _ =>
           match ph s with
-          | PRun => set_pc s (CLenB d)
-          | _ => if dk_is_finish d then finish_return s (RErr E_OTHER) else call_return s (RErr E_OTHER)
+          | PRun => goto (CLenB d)
+          | _ => if dk_is_finish d then freturn (RErr E_OTHER) else creturn (RErr E_OTHER)
           end
       end
   | KDrain =>
       match v with
-      | RSome r => set_pc (emit s r) (CTop KDrain)
-      | RErr e => call_return s (RErr e)
-      | _ => call_return s ROk
+      | RSome r => with_out r (goto (CTop KDrain))
+      | RErr e => creturn (RErr e)
+      | _ => creturn ROk
       end
   | KFlush =>
       match v with
-      | RSome r =>
-          let s1 := emit s r in
-          if Nat.ltb (nr s1) (nd s1) then set_pc s1 (CTop KFlush) else call_return s1 ROk
-      | RErr e => call_return s (RErr e)
-      | _ => call_return s (RErr E_OTHER)
+      | RSome r => with_out r (if Nat.ltb (nr s) (nd s) then goto (CTop KFlush) else creturn ROk)
+      | RErr e => creturn (RErr e)
+      | _ => creturn (RErr E_OTHER)
       end
   | KFinish =>
       match v with
-      | RSome r => set_pc (emit s r) (CTop KFinish)
-      | RErr e => finish_return s (RErr e)
-      | _ => set_pc s (CShut true)      (* terminator written; shutdown + close + Ok(inner) *)
+      | RSome r => with_out r (goto (CTop KFinish))
+      | RErr e => freturn (RErr e)
+      | _ => goto (CShut true)      (* terminator written; shutdown + close + Ok(inner) *)
       end
   end.
+Definition ret (s : state) (g : gk) (v : cres) : state := apply_eff s (ret_eff s g v).
 
 (* reader: what follows the result [r] of read_and_dispatch_chunk / dispatch_next_member *)
-Definition after_src (c : cfg) (s : state) (r : src_res) : state :=
+Definition src_eff (c : cfg) (s : state) (r : src_res) : ceff :=
   match r with
-  | SCont => set_pc s (CTop KRead)
+  | SCont => goto (CTop KRead)
   | SEnd =>
-      if fx_empty c && Nat.eqb (nd s) 0 then set_pc s (CSetErr E_UNEXPECTED_EOF)
-      else set_pc (set_ph (set_last s (Some (nd s - 1))) PDrain) (CTop KRead)
-  | SErr e => set_pc s (CSetErr e)
+      if fx_empty c && Nat.eqb (nd s) 0 then goto (CSetErr E_UNEXPECTED_EOF)
+      else mkEff (CTop KRead) [] [] false (Some PDrain) (Some (Some (nd s - 1)))
+  | SErr e => goto (CSetErr e)
   end.
+Definition after_src (c : cfg) (s : state) (r : src_res) : state := apply_eff s (src_eff c s r).
 
 (* writer: finish() after its send_work_unit()? *)
-Definition finish_cont (s : state) : state :=
-  if Nat.eqb (nd s) 0 then set_pc s (CShut true)
-  else set_pc (set_ph (set_last s (Some (nd s - 1))) PDrain) (CTop KFinish).
+Definition finish_eff (s : state) : ceff :=
+  if Nat.eqb (nd s) 0 then goto (CShut true)
+  else mkEff (CTop KFinish) [] [] false (Some PDrain) (Some (Some (nd s - 1))).
+Definition finish_cont (s : state) : state := apply_eff s (finish_eff s).
 
 (* flush() after its send_work_unit()?: while next_sequence_to_write < sequence_to_wait *)
-Definition flush_loop (s : state) : state :=
-  if Nat.ltb (nr s) (nd s) then set_pc s (CTop KFlush) else call_return s ROk.
+Definition flush_eff (s : state) : ceff :=
+  if Nat.ltb (nr s) (nd s) then goto (CTop KFlush) else creturn ROk.
+Definition flush_loop (s : state) : state := apply_eff s (flush_eff s).
 
 (* end of the dispatch sequence: next_sequence_to_dispatch += 1, back to the caller *)
-Definition after_dispatch (c : cfg) (s : state) (d : dk) : state :=
-  let s1 := set_nd s (S (nd s)) false in
+Definition disp_eff (c : cfg) (s1 : state) (d : dk) : ceff :=
   match d with
-  | DRead r => after_src c s1 r
-  | DWrite => set_pc s1 (CTop KDrain)
-  | DFlush => flush_loop s1
-  | DFinish => finish_cont s1
+  | DRead r => src_eff c s1 r
+  | DWrite => goto (CTop KDrain)
+  | DFlush => flush_eff s1
+  | DFinish => finish_eff s1
   end.
+Definition after_dispatch (c : cfg) (s : state) (d : dk) : state :=
+  let s1 := set_nd s (S (nd s)) false in apply_eff s1 (disp_eff c s1 d).
 
 Definition blocking_of (g : gk) : bool := match g with KDrain => false | _ => true end.
 
@@ -447,10 +475,10 @@ Definition co_step (c : cfg) (s : state) (pick : nat) : option state :=
   | CCloseNotify fin =>
       let s1 := set_ws s (wake_all (ws s)) in
       if fx_close c then Some (set_pc s1 (CCloseUnlock fin))
-      else if fin then Some (finish_return s1 ROk) else Some (set_pc s1 CDropRx)
+      else if fin then Some (finish_return s1 RNone) else Some (set_pc s1 CDropRx)
   | CCloseUnlock fin =>
       let s1 := set_lock s None in
-      if fin then Some (finish_return s1 ROk) else Some (set_pc s1 CDropRx)
+      if fin then Some (finish_return s1 RNone) else Some (set_pc s1 CDropRx)
   | CDropRx => Some (set_pc (set_ch s [] false) CDone)
   end.
 
@@ -587,7 +615,100 @@ Arguments WTop {R}. Arguments WLock {R}. Arguments WPop {R}. Arguments WChk {R}.
 Arguments WSleep {R}. Arguments WWoken {R}. Arguments WInc {R}. Arguments WSend {R}. Arguments WDec {R}.
 Arguments WDecX {R}. Arguments WDecE {R}. Arguments WSetErr {R}. Arguments WWake {R}. Arguments WExit {R}.
 
-(* the pinned tree / the tree with repo-patches 02..05 applied *)
+Arguments q_items {R}.
+Arguments q_closed {R}.
+Arguments q_lock {R}.
+Arguments ch {R}.
+Arguments rx_alive {R}.
+Arguments err {R}.
+Arguments shut {R}.
+Arguments act {R}.
+Arguments ws {R}.
+Arguments pc {R}.
+Arguments ph {R}.
+Arguments nd {R}.
+Arguments nr {R}.
+Arguments last {R}.
+Arguments reo {R}.
+Arguments rwake {R}.
+Arguments script {R}.
+Arguments prog {R}.
+Arguments pend {R}.
+Arguments out {R}.
+Arguments results {R}.
+Arguments popped {R}.
+Arguments set_q {R}.
+Arguments set_items {R}.
+Arguments set_closed {R}.
+Arguments set_lock {R}.
+Arguments set_ch {R}.
+Arguments set_err {R}.
+Arguments set_act {R}.
+Arguments set_ws {R}.
+Arguments set_pc {R}.
+Arguments set_ph {R}.
+Arguments set_nd {R}.
+Arguments set_last {R}.
+Arguments set_reo {R}.
+Arguments set_script {R}.
+Arguments set_prog {R}.
+Arguments set_out {R}.
+Arguments set_popped {R}.
+Arguments lock_free {R}.
+Arguments qlen {R}.
+Arguments call_return {R}.
+Arguments finish_return {R}.
+Arguments ret {R}.
+Arguments finish_cont {R}.
+Arguments flush_loop {R}.
+Arguments in_call {R}.
+Arguments all_exited {R}.
+Arguments dropped {R}.
+Arguments set_w {R}.
+Arguments apply_eff {R}.
+Arguments goto {R}.
+Arguments creturn {R}.
+Arguments freturn {R}.
+Arguments with_out {R}.
+Arguments ret_eff {R}.
+Arguments src_eff {R}.
+Arguments finish_eff {R}.
+Arguments flush_eff {R}.
+Arguments disp_eff {R}.
+Arguments e_pc {R}.
+Arguments e_out {R}.
+Arguments e_res {R}.
+Arguments e_fin {R}.
+Arguments e_ph {R}.
+Arguments e_last {R}.
+Arguments mkEff {R}.
+Arguments lookup {R}.
+Arguments remove_key {R}.
+Arguments insert {R}.
+Arguments is_sleep {R}.
+Arguments wake_all {R}.
+Arguments wake_first {R}.
+Arguments wake_nth {R}.
+Arguments wake_one {R}.
+Arguments is_exit {R}.
+Arguments mkSt {R}.
+Arguments after_src {R}.
+Arguments after_dispatch {R}.
+Arguments co_step {R}.
+Arguments init {R}.
+Arguments wk_step {R} f.
+Arguments step {R} f.
+Arguments run {R} f.
+Arguments run_strict {R} f.
+Arguments reachable {R} f.
+Arguments enabled {R} f.
+Arguments any_worker_enabled {R} f.
+Arguments stuck {R} f.
+Arguments first_enabled_worker {R} f.
+Arguments pick_thread {R} f.
+Arguments run_auto {R} f.
+
+(* the pinned tree / the tree with repo-patches 10..13 applied *)
 Definition orig_cfg (k : kind) (workers : nat) (spawn_new : bool) : cfg :=
   mkCfg k workers spawn_new false false false false.
 Definition fixed_cfg (k : kind) (workers : nat) (spawn_new : bool) : cfg :=
